@@ -157,76 +157,139 @@ type mount struct {
 	Rel    string `json:"prefix"` // prefix of the mount relative to its parent ("/" = mounted at the parent's root)
 	Own    bool   `json:"own_error_handler"`
 	Full   string `json:"full_prefix"`
-	Via    int    `json:"-"`                           // how the mounting call is SPELLED (viaNames); every spelling denotes the same mount
-	Spell  string `json:"spelled,omitempty"`           // viaNames[Via] when not the plain Use(prefix, sub)
+	Via    int    `json:"-"`                           // how the mounting call is SPELLED: index into spellings(Rel); every spelling denotes the same mount
+	Spell  string `json:"spelled,omitempty"`           // class of the spelling when not the plain Use(prefix, sub)
 	Again  int    `json:"same_app_as_mount,omitempty"` // 1+index of an earlier mount whose *fiber.App object is mounted once more here (0: an app of its own)
 }
 
-// how a mount is written down. All spellings register the sub-app under parent-prefix + Rel.
-const (
-	viaUse           = iota // parent.Use("/api", sub)
-	viaSlash                // parent.Use("/api/", sub)
-	viaGroupRoot            // parent.Group("/api").Use("/", sub)
-	viaGroupSplit           // parent.Group("/").Use("/api", sub); "/api/v1": parent.Group("/api").Use("/v1", sub)
-	viaGroupNoPrefix        // parent.Group("/api").Use(sub)
-	viaNoLead               // parent.Use("api", sub); Rel "/": parent.Use("", sub)
-	viaUseNoPrefix          // Rel "/" only: parent.Use(sub)
-	nVia
-)
+// spell: one way of writing a mounting call. All spellings of a mount register the sub-app under
+// parent prefix + Rel: [parent.Group(g).]Use(m, sub), the path g+m cut at any segment boundary of Rel, the
+// group prefix and the mount prefix each with or without a trailing slash, the mount prefix with or without its
+// leading slash, an empty piece written as "/", "" or (mount prefix) left out.
+type spell struct {
+	group    bool
+	g, m     string // group prefix / mount prefix as written
+	noPrefix bool   // Use(sub): no prefix argument at all
+	class    string // name of the spelling without the concrete prefix (signature qualifier)
+}
 
-var viaNames = [nVia]string{"Use(prefix,sub)", "Use(prefix+slash,sub)", "Group(prefix).Use(slash,sub)", "Group(head).Use(tail,sub)", "Group(prefix).Use(sub)", "Use(prefix-without-leading-slash,sub)", "Use(sub)"}
+const viaUse = 0 // spellings(rel)[0]: parent.Use(rel, sub)
 
-// viaApplies: spellings that exist for a relative prefix.
-func viaApplies(rel string, via int) bool {
-	if rel == "/" {
-		return via == viaUse || via == viaGroupRoot || via == viaGroupNoPrefix || via == viaNoLead || via == viaUseNoPrefix
+const plainSpelling = "Use(prefix,sub)"
+
+// spellings enumerates every spelling of a mount with relative prefix rel; [0] is the plain one.
+var spellCache = map[string][]spell{}
+
+func spellings(rel string) []spell {
+	if c, ok := spellCache[rel]; ok {
+		return c
 	}
-	return via != viaUseNoPrefix
+	c := spellings0(rel)
+	spellCache[rel] = c
+	return c
+}
+
+func spellings0(rel string) []spell {
+	var segs []string // "/api/v1" -> "/api", "/v1"; "/" -> none
+	if rel != "/" {
+		for _, p := range strings.Split(rel[1:], "/") {
+			segs = append(segs, "/"+p)
+		}
+	}
+	n := len(segs)
+	// spellings of the mount prefix for a tail (what it is called: "prefix" when it is the whole of rel)
+	tails := func(tail, what string) []spell {
+		if tail == "" {
+			return []spell{{m: "/", class: "slash"}, {m: "", class: "empty"}, {noPrefix: true, class: "none"}}
+		}
+		return []spell{{m: tail, class: what}, {m: tail + "/", class: what + "+slash"}, {m: tail[1:], class: what + "-without-leading-slash"}}
+	}
+	var out []spell
+	for _, t := range tails(strings.Join(segs, ""), "prefix") {
+		cl := "Use(" + t.class + ",sub)"
+		if t.noPrefix {
+			cl = "Use(sub)"
+		}
+		out = append(out, spell{m: t.m, noPrefix: t.noPrefix, class: cl})
+	}
+	for k := 0; k <= n; k++ {
+		head, tail := strings.Join(segs[:k], ""), strings.Join(segs[k:], "")
+		var gs []spell
+		switch {
+		case k == 0:
+			gs = []spell{{g: "/", class: "slash"}, {g: "", class: "empty"}}
+		case k == n:
+			gs = []spell{{g: head, class: "prefix"}, {g: head + "/", class: "prefix+slash"}}
+		default:
+			gs = []spell{{g: head, class: "head"}, {g: head + "/", class: "head+slash"}}
+		}
+		what := "tail"
+		if k == 0 {
+			what = "prefix"
+		}
+		for _, g := range gs {
+			for _, t := range tails(tail, what) {
+				cl := "Group(" + g.class + ").Use(" + t.class + ",sub)"
+				if t.noPrefix {
+					cl = "Group(" + g.class + ").Use(sub)"
+				}
+				out = append(out, spell{group: true, g: g.g, m: t.m, noPrefix: t.noPrefix, class: cl})
+			}
+		}
+	}
+	return out
+}
+
+// spellingIndex: index of the spelling of rel with the given class, -1 if rel has none.
+func spellingIndex(rel, class string) int {
+	for i, sp := range spellings(rel) {
+		if sp.class == class {
+			return i
+		}
+	}
+	return -1
+}
+
+// spellingClasses: every class name, in a fixed order (first appearance over the prefixes of the family).
+func spellingClasses() []string {
+	var out []string
+	seen := map[string]bool{}
+	for _, rel := range append(append([]string{}, spellRoot...), nestedRel...) {
+		for _, sp := range spellings(rel) {
+			if !seen[sp.class] {
+				seen[sp.class] = true
+				out = append(out, sp.class)
+			}
+		}
+	}
+	return out
 }
 
 // spelled returns the Go text of the mounting call and performs it when parent != nil.
 func spelled(parentName, subName string, rel string, via int, parent, sub *fiber.App) string {
+	sp := spellings(rel)[via]
 	q := strconv.Quote
-	switch via {
-	case viaSlash:
+	var r fiber.Router
+	text := parentName
+	if parent != nil {
+		r = parent
+	}
+	if sp.group {
+		text += ".Group(" + q(sp.g) + ")"
 		if parent != nil {
-			parent.Use(rel+"/", sub)
+			r = parent.Group(sp.g)
 		}
-		return fmt.Sprintf("%s.Use(%s, %s)", parentName, q(rel+"/"), subName)
-	case viaGroupRoot:
+	}
+	if sp.noPrefix {
 		if parent != nil {
-			parent.Group(rel).Use("/", sub)
+			r.Use(sub)
 		}
-		return fmt.Sprintf("%s.Group(%s).Use(\"/\", %s)", parentName, q(rel), subName)
-	case viaGroupSplit:
-		head, tail := "/", rel
-		if i := strings.Index(rel[1:], "/"); i >= 0 {
-			head, tail = rel[:i+1], rel[i+1:]
-		}
-		if parent != nil {
-			parent.Group(head).Use(tail, sub)
-		}
-		return fmt.Sprintf("%s.Group(%s).Use(%s, %s)", parentName, q(head), q(tail), subName)
-	case viaGroupNoPrefix:
-		if parent != nil {
-			parent.Group(rel).Use(sub)
-		}
-		return fmt.Sprintf("%s.Group(%s).Use(%s)", parentName, q(rel), subName)
-	case viaNoLead:
-		if parent != nil {
-			parent.Use(rel[1:], sub)
-		}
-		return fmt.Sprintf("%s.Use(%s, %s)", parentName, q(rel[1:]), subName)
-	case viaUseNoPrefix:
-		if parent != nil {
-			parent.Use(sub)
-		}
-		return fmt.Sprintf("%s.Use(%s)", parentName, subName)
+		return text + ".Use(" + subName + ")"
 	}
 	if parent != nil {
-		parent.Use(rel, sub)
+		r.Use(sp.m, sub)
 	}
-	return fmt.Sprintf("%s.Use(%s, %s)", parentName, q(rel), subName)
+	return text + ".Use(" + q(sp.m) + ", " + subName + ")"
 }
 
 // mk builds a mount entry; joinPrefix gives the full prefix of a mount below a parent prefix.
@@ -608,7 +671,7 @@ func programs(maxMounts int, quick bool) []program {
 var spellRoot = []string{"/", "/api", "/api-v2", "/api/v1", "/ap", "/a"}
 
 // spellingPrograms: the mount-spelling family. Every structure of <=2 mounts over spellRoot (children:
-// nestedRel) with ONE mount, or ALL mounts, written in every applicable spelling (viaNames) - the plain
+// nestedRel) with ONE mount, or ALL mounts, written in every applicable spelling (spellings) - the plain
 // spelling of structures without a "/" mount is the main family - plus one app OBJECT mounted twice:
 // at two root-level prefixes, and at a root-level prefix and below another mount.
 func spellingPrograms(quick bool) []program {
@@ -618,7 +681,7 @@ func spellingPrograms(quick bool) []program {
 		for i := range ms {
 			ms[i].Spell = ""
 			if ms[i].Via != viaUse {
-				ms[i].Spell = viaNames[ms[i].Via]
+				ms[i].Spell = spellings(ms[i].Rel)[ms[i].Via].class
 			}
 		}
 		lates := []bool{false}
@@ -633,6 +696,7 @@ func spellingPrograms(quick bool) []program {
 			}
 		}
 	}
+	classes := spellingClasses()
 	for _, base := range structures(2, spellRoot) {
 		if len(base) == 0 {
 			continue
@@ -642,31 +706,40 @@ func spellingPrograms(quick bool) []program {
 			slashMount = slashMount || m.Rel == "/"
 		}
 		seen := map[[2]int]bool{}
-		for v := 0; v < nVia*nVia; v++ {
-			if quick && v >= nVia {
-				break // quick: one mount, or all mounts, in spelling v; thorough: every pair of spellings (v/nVia, v%nVia) too
+		try := func(vec [2]int) {
+			for i := range base {
+				if vec[i] < 0 {
+					return // this mount has no spelling of that class
+				}
 			}
+			if seen[vec] || (vec == [2]int{viaUse, viaUse} && !slashMount) {
+				return
+			}
+			seen[vec] = true
+			ms := append([]mount(nil), base...)
+			for i := range ms {
+				ms[i].Via = vec[i]
+			}
+			emit(ms)
+		}
+		// one mount, or all mounts, written in the spelling of class c
+		for _, c := range classes {
 			for mask := 1; mask < 1<<len(base); mask++ {
 				vec := [2]int{viaUse, viaUse}
-				ok := true
 				for i := range base {
 					if mask&(1<<i) != 0 {
-						vec[i] = v
-						if v >= nVia {
-							vec[i] = [2]int{v / nVia, v % nVia}[i]
-						}
+						vec[i] = spellingIndex(base[i].Rel, c)
 					}
-					ok = ok && viaApplies(base[i].Rel, vec[i])
 				}
-				if !ok || seen[vec] || (vec == [2]int{viaUse, viaUse} && !slashMount) {
-					continue
+				try(vec)
+			}
+		}
+		if !quick && len(base) == 2 {
+			// thorough: every pair of spellings
+			for v0 := range spellings(base[0].Rel) {
+				for v1 := range spellings(base[1].Rel) {
+					try([2]int{v0, v1})
 				}
-				seen[vec] = true
-				ms := append([]mount(nil), base...)
-				for i := range ms {
-					ms[i].Via = vec[i]
-				}
-				emit(ms)
 			}
 		}
 	}
@@ -697,10 +770,13 @@ func spellingPrograms(quick bool) []program {
 	if !quick {
 		// thorough: the deep chains root -> m0 -> m1 -> m2 with every mounting call written through a group / with a trailing slash
 		for _, ms := range deepStructures(0) {
-			for _, v := range []int{viaSlash, viaGroupRoot, viaGroupSplit} {
+			for _, c := range []string{"Use(prefix+slash,sub)", "Group(prefix).Use(slash,sub)", "Group(prefix+slash).Use(slash,sub)", "Group(prefix+slash).Use(sub)", "Group(slash).Use(prefix,sub)"} {
 				ms := append([]mount(nil), ms...)
 				for i := range ms {
-					ms[i].Via, ms[i].Spell = v, viaNames[v]
+					ms[i].Via, ms[i].Spell = spellingIndex(ms[i].Rel, c), c
+					if ms[i].Via < 0 {
+						panic("no spelling " + c + " for " + ms[i].Rel)
+					}
 				}
 				for _, late := range []bool{false, true} {
 					for _, rootOwn := range []bool{false, true} {
@@ -800,6 +876,9 @@ func requestPaths(p *program) []string {
 	for i, m := range p.Mounts {
 		set[m.Full] = true
 		set[under(m.Full, "/x")] = true
+		if p.Family == famSpelling {
+			set[under(m.Full, "/")] = true // the prefix itself written with a trailing slash
+		}
 		if m.Parent >= 0 {
 			// bogus prefixes: the mount's chain of relative prefixes with ancestors dropped
 			for _, q := range p.partialPrefixes(i) {
@@ -875,6 +954,12 @@ func dupPrefix(p *program, path string) bool {
 func routedGET(p *program, path string) bool {
 	if p.RootCatch {
 		return true
+	}
+	if p.Cfg&cfgStrict == 0 && len(path) > 1 {
+		path = strings.TrimRight(path, "/") // non-strict routing: trailing slashes do not count
+		if path == "" {
+			path = "/"
+		}
 	}
 	for _, m := range p.Mounts {
 		if path == m.Full || path == under(m.Full, "/x") {
@@ -1567,7 +1652,7 @@ func runProgram(r *core.Run, l *core.Local, p *program, pi int, fctx *fasthttp.R
 					for _, m := range p.Mounts {
 						if contains(m.Full, path) {
 							switch {
-							case m.Via == viaGroupRoot || m.Via == viaGroupSplit || m.Via == viaGroupNoPrefix:
+							case spellings(m.Rel)[m.Via].group:
 								l.Add("evaluations_path_inside_mount_made_through_group", int64(cell.evals))
 							case m.Rel == "/":
 								l.Add("evaluations_path_inside_mount_at_parent_root", int64(cell.evals))
@@ -1722,7 +1807,7 @@ func qualifier(p *program, rawPath string, want []int, o *outcome) string {
 				continue
 			}
 			if m.Via != viaUse {
-				set[viaNames[m.Via]] = true
+				set[m.Spell] = true
 			}
 			if m.Rel == "/" {
 				set["mount-at-parent-root"] = true
@@ -1963,11 +2048,11 @@ func finish(r *core.Run, progs []program, maxMounts int) {
 				" FAMILY mount-spelling (%d programs): every structure of <=2 mounts over root prefixes %v (\"/\" = a sub-app mounted at its parent's root, which contains every path) with ONE mount or ALL mounts (thorough: every pair of spellings; deep chains all through groups / with trailing slashes) written as %v - all spellings denote the same mount, so the same handler is expected; plus ONE APP OBJECT MOUNTED TWICE (two root-level prefixes; a root-level prefix and below another mount); x rootOwn x catch-all x both nesting orders x request paths (as above plus / and /x) x the fully explored scenarios and the answering scenarios of the added sources x every ErrorHandler order x single mount.go deviations (both App.mount and Group.mount ranges are owned)."+
 				" FAMILY path-spelling-x-routing-config (%d programs): every structure of <=2 mounts of the main alphabet x root Config %v (bit 1 CaseSensitive, 2 StrictRouting, 4 UnescapePath) x request paths as above plus, per mount prefix F: %v built as F/, F/x/, F//x, F with its first letter in the other case + /x, upper-case F, F with its first letter percent-encoded + /x, F%%2Fx; the reference decides on the path the application sees (percent-decoded under UnescapePath only; letter case and slashes untouched); where routing is case-insensitive and the two readings of 'contains' differ, either handler is accepted (unspecified_skipped), under CaseSensitive only the byte-wise one; POST requests: either framework error (404/405) is accepted, its delivery is judged.",
 				len(progs), maxMounts, prefixes, nestedRel, deepAlpha, formNames, nSrc, srcNames, nBeh, behNames, maxFullOrderChoices, maxOrderDeviations, pol,
-				nOldSrc, nSrc-nOldSrc, c["programs_family_"+famNames[famSpelling]], spellRoot, viaNames, c["programs_family_"+famNames[famPathCfg]], map[bool][]int{true: pathCfgs, false: {0, 1, 2, 3, 4, 5, 6, 7}}[r.Quick()], pathClassNames),
+				nOldSrc, nSrc-nOldSrc, c["programs_family_"+famNames[famSpelling]], spellRoot, spellingClasses(), c["programs_family_"+famNames[famPathCfg]], map[bool][]int{true: pathCfgs, false: {0, 1, 2, 3, 4, 5, 6, 7}}[r.Quick()], pathClassNames),
 			"bounds": map[string]any{"max_mounts": maxMounts, "max_mounts_deep_trees": map[bool]int{true: 3, false: 4}[r.Quick()], "nesting_depth": 2, "programs": len(progs), "deep_programs": c["deep_programs"],
 				"error_sources": nSrc, "error_handler_behaviours": nBeh, "source_x_behaviour_scenarios": len(scens),
 				"max_applist_entries": map[bool]int{true: 4, false: 5}[r.Quick()], "all_orders_up_to_applist_entries": maxFullOrderChoices + 1, "max_order_deviations_beyond": maxOrderDeviations,
-				"mount_spellings": nVia, "routing_configs": map[bool]int{true: len(pathCfgs), false: 8}[r.Quick()], "path_spellings_per_mount": len(pathClassNames),
+				"mount_spelling_classes": len(spellingClasses()), "routing_configs": map[bool]int{true: len(pathCfgs), false: 8}[r.Quick()], "path_spellings_per_mount": len(pathClassNames),
 				"programs_mount_spelling_family": c["programs_family_"+famNames[famSpelling]], "programs_path_spelling_family": c["programs_family_"+famNames[famPathCfg]],
 				"max_orders_per_request": map[bool]int{true: 24, false: 46}[r.Quick()], "orders_skipped_by_deviation_cap": c["orders_skipped_by_deviation_cap"], "mount_go_deviations_per_build": 1},
 		},
